@@ -30,6 +30,12 @@
 // state (hook event, goroutine state in runtime.Stack) with a deadline; a gate
 // that cannot be established fails the driver (exit 2 of the check).  Recorded:
 // call / return of each operation and the route as Table.Snapshot() shows it.
+//
+// Kind "tovl" (overlapping admin operations on the TABLE): the table of kind fe;
+// ov1 is DelAggregator of the gate aggregator: it takes the table lock, loads
+// the configuration and waits inside Aggregator.Shutdown, whose goroutine asks
+// the mock clock for the time when it takes the shutdown signal -- and is held
+// there.  ov2 is any operation on any list of the table.
 package tbl
 
 import (
@@ -134,6 +140,8 @@ type harness struct {
 	blSeen  int64      // dispatches the hook saw dropped by the blacklist
 
 	parkAll bool   // kind ovl: relays of new destinations are parked at birth
+	aggPark *parkState // kind tovl: armed -> the gate aggregator's goroutine is held in its clock when it shuts down
+	aggDown map[*aggregator.Aggregator]bool // kind tovl: aggregators a returned DelAggregator has shut down
 	okDels  int    // kind ovl: deletes of a destination that returned without error (each shut one relay down)
 	evKind  string // kind as recorded in the hist event (ovl runs on the harness of kind dest)
 }
@@ -232,10 +240,19 @@ func (h *harness) feGate() time.Time {
 	h.mu.Lock()
 	s := h.feArmed
 	h.feArmed = nil
+	var p *parkState
+	if s == nil { // kind tovl: no dispatcher; the aggregator's own goroutine asks when it takes the shutdown signal
+		p = h.aggPark
+		h.aggPark = nil
+	}
 	h.mu.Unlock()
 	if s != nil {
 		s.reached <- -1
 		<-s.release
+	}
+	if p != nil {
+		close(p.parked)
+		<-p.release
 	}
 	return time.Unix(1000, 0)
 }
@@ -444,10 +461,13 @@ func newHarness(t *testing.T, lg *hx.Log, kind string, rng *rand.Rand) *harness 
 	if kind == "ovl" { // one real route and its destinations, as kind dest; the relays under control of the gate
 		kind = "dest"
 	}
+	if kind == "tovl" { // the whole table as in kind fe (capture routes, front end, gate aggregator first)
+		kind = "fe"
+	}
 	h := &harness{t: t, lg: lg, kind: kind, evKind: evKind, parkAll: evKind == "ovl", tag: fmt.Sprintf("%sx%d", runTag, n),
 		disp: map[int]*dispState{}, destID: map[string]int{}, dests: map[int]*destination.Destination{},
 		sends: map[int]int{}, drains: map[int]*int64{}, stopDr: make(chan struct{}),
-		aggID: map[*aggregator.Aggregator]int{}, held: map[string][]heldSnap{}}
+		aggID: map[*aggregator.Aggregator]int{}, held: map[string][]heldSnap{}, aggDown: map[*aggregator.Aggregator]bool{}}
 	h.useCmd = func() bool { return rng.Intn(2) == 0 }
 	cfg, err := table.NewTableConfig("/dev/shm/verif-c18-nospool", "24h",
 		validate.LevelLegacy{Level: m20.NoneLegacy}, validate.LevelM20{Level: m20.NoneM20}, false)
@@ -1073,18 +1093,33 @@ func (h *harness) overlap(o1, o2 step) {
 	rec := func(a int, o step) {
 		h.lg.Emit(map[string]interface{}{"ev": "acall", "a": a, "l": o.L, "op": o.Op, "e": o.E, "f": o.F, "i": o.I, "k": o.K})
 	}
-	ds := route.VerifRawDests(h.rt)
-	if o1.L != "main" || o1.Op != "delidx" || o1.I < 0 || o1.I >= len(ds) {
-		h.gateFail(fmt.Sprintf("ov1 must delete an existing destination: %+v with %d destinations", o1, len(ds)))
-	}
-	victim := parkGet(ds[o1.I].Key)
-	if victim == nil {
-		h.gateFail("the destination to be deleted is not under control of the relay gate")
-	}
-	select {
-	case <-victim.parked:
-	case <-time.After(gateDeadline):
-		h.gateFail("the relay of the destination to be deleted never came to the gate (hook point relay.loop gone?)")
+	table := h.evKind == "tovl"
+	var gateAgg *aggregator.Aggregator
+	var aggGate *parkState
+	if table {
+		_, _, _, aggs := h.tbl.VerifRawConfig()
+		if o1.L != "agg" || o1.Op != "delidx" || o1.I != 0 || len(aggs) == 0 || aggIDOf(aggs[0]) != gateAggID {
+			h.gateFail(fmt.Sprintf("ov1 must delete the gate aggregator: %+v", o1))
+		}
+		gateAgg = aggs[0]
+		aggGate = &parkState{parked: make(chan struct{}), release: make(chan struct{})}
+		h.mu.Lock()
+		h.aggPark = aggGate
+		h.mu.Unlock()
+	} else {
+		ds := route.VerifRawDests(h.rt)
+		if o1.L != "main" || o1.Op != "delidx" || o1.I < 0 || o1.I >= len(ds) {
+			h.gateFail(fmt.Sprintf("ov1 must delete an existing destination: %+v with %d destinations", o1, len(ds)))
+		}
+		victim := parkGet(ds[o1.I].Key)
+		if victim == nil {
+			h.gateFail("the destination to be deleted is not under control of the relay gate")
+		}
+		select {
+		case <-victim.parked:
+		case <-time.After(gateDeadline):
+			h.gateFail("the relay of the destination to be deleted never came to the gate (hook point relay.loop gone?)")
+		}
 	}
 	liveBefore := h.liveDests()
 	use1, use2 := h.useCmd(), h.useCmd() // drawn here: the generator is not shared between the goroutines
@@ -1098,22 +1133,40 @@ func (h *harness) overlap(o1, o2 step) {
 		return err
 	}, res1)
 	deadline := time.Now().Add(gateDeadline)
+	if table {
+		// the aggregator's goroutine took the shutdown signal (only Shutdown gives it) and is held in its clock
+		select {
+		case <-aggGate.parked:
+		case err := <-res1:
+			res1 <- err
+			h.gateFail("ov1 returned although the goroutine of the aggregator it shuts down is held")
+		case <-time.After(gateDeadline):
+			h.gateFail("the gate aggregator's goroutine never asked its clock on shutdown (gate point gone from Aggregator.run?)")
+		}
+	}
 	for {
 		st, fn, ok := gstate("tbl.ovlFirstOp")
-		if ok && parkedInShutdown(st, fn) {
+		if ok && !table && parkedInShutdown(st, fn) {
 			break
 		}
+		if ok && table && hasFunc(fn, "aggregator.(*Aggregator).Shutdown") {
+			break // (it cannot leave it: the goroutine it waits for is held)
+		}
 		if len(res1) > 0 {
-			h.gateFail("ov1 returned although the relay of the destination it shuts down is parked")
+			h.gateFail("ov1 returned although the goroutine it waits for in Shutdown is parked")
 		}
 		if time.Now().After(deadline) {
-			h.gateFail(fmt.Sprintf("ov1 never got into Destination.Shutdown (state %q)", st))
+			h.gateFail(fmt.Sprintf("ov1 never got into Shutdown (state %q, stack %v)", st, fn))
 		}
 		time.Sleep(100 * time.Microsecond)
 	}
-	// does it hold the route lock there?  (recorded, not judged)
+	// does it hold the route / table lock there?  (recorded, not judged)
 	locked := true
-	if mu, ok := h.rt.(interface {
+	var lk interface{} = h.rt
+	if table {
+		lk = h.tbl
+	}
+	if mu, ok := lk.(interface {
 		TryLock() bool
 		Unlock()
 	}); ok && mu.TryLock() {
@@ -1145,7 +1198,11 @@ func (h *harness) overlap(o1, o2 step) {
 	}
 
 	// let ov1 finish; ov2 follows
-	h.parkReleaseAll()
+	if table {
+		close(aggGate.release)
+	} else {
+		h.parkReleaseAll()
+	}
 	for n := 0; n < 2; n++ {
 		var a int
 		var err error
@@ -1163,14 +1220,23 @@ func (h *harness) overlap(o1, o2 step) {
 			errs = err.Error()
 		}
 		h.lg.Emit(map[string]interface{}{"ev": "aret", "a": a, "err": err != nil, "errs": errs, "via": via[a]})
-		if o := [3]step{{}, o1, o2}[a]; o.L == "main" && o.Op == "delidx" && err == nil {
+		if o := [3]step{{}, o1, o2}[a]; !table && o.L == "main" && o.Op == "delidx" && err == nil {
 			h.okDels++
+		}
+		if table && a == 1 && err == nil {
+			h.aggDown[gateAgg] = true
 		}
 	}
 	h.drainRemoved(liveBefore)
 	snaps := h.capture()
-	h.lg.Emit(map[string]interface{}{"ev": "aview", "view": h.view("main"), "rtview": h.view("rt"), "snaps": snaps,
-		"g1": "shutdown", "locked": locked, "g2": g2})
+	views := map[string]interface{}{}
+	for _, l := range listNames {
+		views[l] = h.view(l)
+	}
+	if !table {
+		views["rt"] = h.view("rt")
+	}
+	h.lg.Emit(map[string]interface{}{"ev": "aview", "views": views, "snaps": snaps, "g1": "shutdown", "locked": locked, "g2": g2})
 }
 
 func (h *harness) routesRaw() []route.Route {
@@ -1327,7 +1393,9 @@ func (h *harness) close() {
 	h.tbl.Shutdown()
 	_, _, _, aggs := h.tbl.VerifRawConfig()
 	for _, a := range aggs {
-		a.Shutdown()
+		if !h.aggDown[a] { // (a deleted, shut-down aggregator that is listed again: Shutdown would close its channel twice)
+			a.Shutdown()
+		}
 	}
 	close(h.stopDr)
 	close(h.tbl.In)
@@ -1340,7 +1408,7 @@ func runScenario(t *testing.T, lg *hx.Log, sc scenario, rng *rand.Rand) {
 	h := newHarness(t, lg, sc.Kind, rng)
 	lg.Emit(map[string]interface{}{"ev": "hist", "h": sc.H, "kind": sc.Kind})
 	list := h.listOf()
-	if sc.Kind == "fe" {
+	if h.kind == "fe" {
 		// the whole table: the front end first (the gate aggregator leads the aggregator list), then the routes
 		h.rgate = sc.RGate
 		h.doOp("agg", step{Ev: "op", L: "agg", Op: "add", E: gateAggID})
@@ -1365,7 +1433,7 @@ func runScenario(t *testing.T, lg *hx.Log, sc scenario, rng *rand.Rand) {
 		case "ov2":
 			h.overlap(ov1, st)
 		case "op":
-			if (sc.Kind == "fe" || sc.Kind == "ovl") && st.L != "" {
+			if (h.kind == "fe" || sc.Kind == "ovl") && st.L != "" {
 				h.doOp(st.L, st)
 				break
 			}
